@@ -104,7 +104,7 @@ def h_to_string(ctx, ts, rd, sd):
     nu = [ctx.real('nu%d' % i, 0.25, 4) for i in range(6)]
     rxn = Reaction(reactants=[Sp(ctx.string(A)), Sp(ctx.string(B))], reactants_stoich=[nu[0], nu[1]],
                    products=[Sp(ctx.string(C)), Sp(ctx.string(D))], products_stoich=[nu[2], nu[4]],
-                   transition_state=[Sp(ctx.string(T)), Sp(ctx.string(T2))] if ts else None, transition_state_stoich=[nu[3], nu[5]] if ts else None)
+                   transition_state=[Sp(ctx.string(T))] if ts else None, transition_state_stoich=[nu[3]] if ts else None)
     out = rxn.to_string(species_delimiter=sd, reaction_delimiter=rd)
     states = out.split(rd)
     ctx.true('states separated by the reaction delimiter', len(states) == (3 if ts else 2))
@@ -113,7 +113,7 @@ def h_to_string(ctx, ts, rd, sd):
     from pmutt.reaction import _write_reaction_state
     want = [_write_reaction_state([Sp(ctx.string(A)), Sp(ctx.string(B))], [nu[0], nu[1]], species_delimiter=sd)]
     if ts:
-        want.append(_write_reaction_state([Sp(ctx.string(T)), Sp(ctx.string(T2))], [nu[3], nu[5]], species_delimiter=sd))
+        want.append(_write_reaction_state([Sp(ctx.string(T))], [nu[3]], species_delimiter=sd))
     want.append(_write_reaction_state([Sp(ctx.string(C)), Sp(ctx.string(D))], [nu[2], nu[4]], species_delimiter=sd))
     for k, (g, w) in enumerate(zip(states, want)):
         ctx.true('state %d printed with the species delimiter' % k, g == w)
@@ -288,7 +288,7 @@ def groups(tier):
                                   params=dict(nsp=nsp, namelen=2 if nsp > 1 else 3, fmt=fmt, space=space, delim=delim), no_validate=True))
     for ts in (False, True):
         for rd, sd in (('=', '+'), ('<=>', '+'), ('>>', '.'), (' => ', ' & ')):
-            g.append(dict(name='to_string/ts=%s/%r/%r' % (ts, rd, sd), harness=h_to_string, params=dict(ts=ts, rd=rd, sd=sd), no_validate=True))
+            g.append(dict(name='to_string/ts=%s/%r/%r' % (ts, rd, sd), harness=h_to_string, params=dict(ts=ts, rd=rd, sd=sd), no_validate=True, max_paths=1000))
     k = 0
     for ts in (False, True):
         for rd, sd in (('=', '+'), ('<=>', '+'), ('>>', '.')):
